@@ -1094,6 +1094,86 @@ func genLongTable(prop string, seed uint64, tier string) *Scenario {
 	return &Scenario{Knobs: k, Sched: genSched(r, seed), Body: raw, MaxSimS: 3000}
 }
 
+// genLongHoles: 300-900 keys, each taken once with the persist-immediately flag and one common expiry
+// of 12-30 s, all within about a second on a single shard: they share one entry of the long-term
+// expiry table. Then most of them (at least 256, in seeded order) are unlocked or updated to another
+// expiry, which leaves holes in the entry until the server rebuilds it around the survivors; every
+// survivor must still end by expiry within its window (C06).
+func genLongHoles(prop string, seed uint64, tier string) *Scenario {
+	r := ssched.Sub(seed, "gen")
+	n := 300 + r.Intn(600)
+	E := uint16(12 + r.Intn(19))
+	body := &CoreBody{NKeys: n, NLids: 1, Profile: "long-holes", Dbs: []int{0}}
+	var ops []OpSpec
+	for i := 0; i < n; i++ {
+		ops = append(ops, OpSpec{Cmd: 1, Key: i, Lid: 0, Count: 0, Expried: E, EFlag: efAof0})
+	}
+	perm := make([]int, n)
+	for i := range perm {
+		perm[i] = i
+	}
+	for i := n - 1; i > 0; i-- {
+		j := r.Intn(i + 1)
+		perm[i], perm[j] = perm[j], perm[i]
+	}
+	gone := 256 + r.Intn(n-256-10)
+	first := true
+	for _, i := range perm[:gone] {
+		o := OpSpec{Cmd: 2, Key: i, Lid: 0}
+		if r.Intn(6) == 0 {
+			o = OpSpec{Cmd: 1, Key: i, Lid: 0, Flag: protocol.LOCK_FLAG_UPDATE_WHEN_LOCKED, Count: 0, Expried: E + uint16(3+r.Intn(6)), EFlag: efAof0}
+		}
+		if first {
+			o.DelayMs, first = 1500+r.Intn(4000), false
+		} else if r.Intn(40) == 0 {
+			o.DelayMs = r.Intn(300)
+		}
+		ops = append(ops, o)
+	}
+	body.Clients = []ClientSpec{{Kind: "mem", StartMs: 50, Ops: ops}}
+	raw, _ := json.Marshal(body)
+	k := genKnobs(r)
+	k.DBConcurrent = 1
+	return &Scenario{Knobs: k, Sched: genSched(r, seed), Body: raw, MaxSimS: 3000}
+}
+
+// genWaitHoles: behind an exclusive holder 300-700 requests queue within one second with the same long
+// timeout (46-60 s: they share one entry of the long-term timeout table once they have moved there);
+// about a second before the deadline most of them (at least 256) are cancelled, which leaves holes in
+// the entry until the server rebuilds it around the survivors; every survivor must still be answered
+// TIMEOUT within its window (C05).
+func genWaitHoles(prop string, seed uint64, tier string) *Scenario {
+	r := ssched.Sub(seed, "gen")
+	n := 300 + r.Intn(400)
+	T := 46 + r.Intn(15)
+	body := &CoreBody{NKeys: 1, NLids: n + 2, Profile: "wait-holes", Dbs: []int{0}}
+	var ops []OpSpec
+	ops = append(ops, OpSpec{Cmd: 1, Key: 0, Lid: 0, Count: 0, Expried: 900, Wait: true})
+	for i := 1; i <= n; i++ {
+		ops = append(ops, OpSpec{Cmd: 1, Key: 0, Lid: i, Count: 0, Timeout: uint16(T), Expried: 5})
+	}
+	perm := make([]int, n)
+	for i := range perm {
+		perm[i] = i + 1
+	}
+	for i := n - 1; i > 0; i-- {
+		j := r.Intn(i + 1)
+		perm[i], perm[j] = perm[j], perm[i]
+	}
+	gone := 256 + r.Intn(n-256-10)
+	for x, l := range perm[:gone] {
+		o := OpSpec{Cmd: 2, Key: 0, Lid: l, Flag: protocol.UNLOCK_FLAG_CANCEL_WAIT_LOCK_WHEN_UNLOCKED}
+		if x == 0 {
+			o.DelayMs = 44600 + r.Intn(T*1000-44600-1500)
+		}
+		ops = append(ops, o)
+	}
+	ops = append(ops, OpSpec{Cmd: 2, Key: 0, Lid: 0, DelayMs: 20000, Wait: true}) // release what is still held
+	body.Clients = []ClientSpec{{Kind: "mem", StartMs: 50, Ops: ops}}
+	raw, _ := json.Marshal(body)
+	return &Scenario{Knobs: genKnobs(r), Sched: genSched(r, seed), Body: raw, MaxSimS: 3000}
+}
+
 // genQueueMigrate: one exclusive key; behind its holder 150-300 plain requests queue one after the
 // other (the queue spills from its inline slots into the ring), then one or two requests with the
 // priority flag arrive (the queue is rebuilt as a priority ring), then the key is released again
